@@ -17,8 +17,8 @@ open Pymeeus Pymeeus.P@K@
 def mean_obliquity (jde : Num) : Num :=
   -- u = (t.jde() - 2451545.0) / 3652500.0
   let u := (jde - 2451545.0) / 3652500.0
-  -- epsilon0 = Angle(23, 26, 21.448)      (dms2deg: sign * (de + mi / 60.0 + se / 3600.0))
-  let epsilon0 : Num := 1.0 * (23.0 + 26.0 / 60.0 + 21.448 / 3600.0)
+  -- epsilon0 = Angle(23, 26, 21.448)      (dms2deg: reduce_deg(sign * (de + mi / 60.0 + se / 3600.0)))
+  let epsilon0 : Num := a_reduce (1.0 * (23.0 + 26.0 / 60.0 + 21.448 / 3600.0))
   let delta := u * (-4680.93 + u * (-1.55 + u * (1999.25 + u * (-51.38 + u * (-249.67
       + u * (-39.05 + u * (7.12 + u * (27.87 + u * (5.79 + u * 2.45)))))))))
   -- delta = Angle(0, 0, delta); epsilon0 += delta
